@@ -120,5 +120,29 @@ pub fn run(rep: &mut Report, thorough: bool) {
         );
         rep.stage(&format!("tcp-data-ports-{}", tag), "[SYN, PSH|ACK(GET)] x port sweeps x {v4,v6}", product(&dims), t0);
     }
+    // a self-IP list that contains group addresses next to unicast ones: requests to the group are
+    // answered from the group address (the identity that was asked), whatever else is on the list
+    {
+        use crate::props::c02::{elicit, Kind};
+        let g4 = Ip::V4([224, 0, 0, 251]);
+        let g6 = Ip::parse("ff02::fb");
+        let mcfg = crate::driver::Cfg::base().with_self(&[srv4(), g4, srv4b(), srv6(), g6]);
+        let t4: Vec<(Ip, Mac)> = vec![(srv4(), MAC_SRV), (g4, [0x01, 0x00, 0x5e, 0, 0, 0xfb]), (g4, MAC_SRV), (g4, [0xff; 6]), (srv4b(), MAC_SRV)];
+        let t6: Vec<(Ip, Mac)> = vec![(srv6(), MAC_SRV), (g6, [0x33, 0x33, 0, 0, 0, 0xfb]), (g6, MAC_SRV), (g6, [0xff; 6])];
+        let k4 = [Kind::Arp, Kind::Echo, Kind::Syn, Kind::Stun, Kind::StunChange];
+        let k6 = [Kind::Ns, Kind::Echo, Kind::Syn, Kind::Stun, Kind::StunChange];
+        let n = (t4.len() * k4.len() + t6.len() * k6.len()) as u64;
+        sweep_frames(rep, &mcfg, "multicast-self", "self-IP list with IPv4 / IPv6 group addresses next to unicast ones: 5 eliciting kinds x destinations {unicast, group via group MAC / own MAC / broadcast}", n, |i| {
+            let i = i as usize;
+            if i < t4.len() * k4.len() {
+                let (ip, mac) = &t4[i / k4.len()];
+                elicit(k4[i % k4.len()], mac, &cli4(), ip)
+            } else {
+                let j = i - t4.len() * k4.len();
+                let (ip, mac) = &t6[j / k6.len()];
+                elicit(k6[j % k6.len()], mac, &cli6(), ip)
+            }
+        });
+    }
     rep.states = rep.sink.classes.len() as u64;
 }
